@@ -4,12 +4,35 @@ package h
 // symbolic integer that the executor enumerates, every ordinate is a symbolic float64.
 
 import (
+	"math"
+
 	geom "github.com/twpayne/go-geom"
 	"github.com/twpayne/go-geom/internal/zzverif/sym"
 )
 
 // Ord returns a fresh symbolic ordinate (any bit pattern).
-func Ord(name string) float64 { return sym.Float64Bits(name) }
+func Ord(name string) float64 {
+	if concreteOrds != 0 {
+		ordCounter++
+		k := uint64(ordCounter)
+		switch concreteOrds {
+		case 1: // every byte distinct within the ordinate, every hex digit used
+			return math.Float64frombits(0x0123456789abcdef ^ (k * 0x0101010101010101))
+		case 2:
+			return math.Float64frombits(0xfedcba9876543210 + k*0x1f)
+		default: // small integers and specials
+			return []float64{0, -1.5, math.Inf(1), math.Float64frombits(0x7ff8000000000001), math.Copysign(0, -1), 1e300, 5e-324}[k%7]
+		}
+	}
+	return sym.Float64Bits(name)
+}
+
+// concreteOrds != 0 makes Ord return concrete bit patterns (used where the subject is a byte<->text
+// mapping of the standard library rather than the ordinates: hex wrappers).
+var (
+	concreteOrds int
+	ordCounter   int
+)
 
 // Layouts is the set of layouts most harnesses quantify over.
 var Layouts = []geom.Layout{geom.XY, geom.XYZ, geom.XYM, geom.XYZM, geom.Layout(5)}
